@@ -24,6 +24,12 @@ func (exp *SuppressibleExpression) Exec(ctx context.Context, scope *core.Scope) 
 }
 
 func (exp *SuppressibleExpression) Maybe(value core.Value, err error) (core.Value, error) {
+	// a cancelled or timed out run is not an error of the expression: it must
+	// surface, otherwise the run would return a result with a nil error
+	if core.IsTerminated(err) {
+		return values.None, err
+	}
+
 	if err != nil {
 		return values.None, nil
 	}
